@@ -25,6 +25,7 @@ SPEC = {
     "parallel": 16,
     "floors": {
         "cert_decisions": (20000, 400000),
+        "seed_switch_comparisons": (30000, 300000), "seed_switches_with_different_committees": (1000, 10000),
         "cert_accept": (2000, 20000),
         "cert_reject": (5000, 50000),
         "ref_genuine_quorum": (2000, 20000),
